@@ -278,6 +278,36 @@ theorem guard_refuses_iff_simulator_flag (st : EState) (hi : Agree st) (idx : Na
   · intro h
     exact guard_refuses_measured st idx p hlen (by rw [hi.same idx hl]; exact h)
 
+open BlochVerif BlochVerif.Eval BlochVerif.Parse in
+/-- **The simulator's own refusal is never reached.**  In a state where the flags agree — every state a program can
+reach — a qubit reference that the evaluator's guard lets through (at the position of the call) is inside the register
+and the simulator's guard accepts it too: the un-located "cannot operate on measured qubit" / "out of range" of the
+simulator cannot be what a program sees after the located check has passed. -/
+theorem guard_passes_implies_simulator_accepts (st st' : EState) (hi : Agree st) (idx : Int) (p : P)
+    (h : (ensureQubitActive idx p).run st = .ok ((), st')) :
+    st' = st ∧ 0 ≤ idx ∧ idx.toNat < st.sim.n ∧ Sim.ensureActive st.sim idx.toNat = .ok () := by
+  unfold ensureQubitActive ensureQubitExists at h
+  by_cases h1 : (idx < 0) ∨ (st.qubits.length : Int) ≤ idx
+  · simp only [run_bind', run_get, ebind_ok, run_ite, run_rtErr, run_pure, Bool.or_eq_true, decide_eq_true_eq, h1,
+      if_true, ge_iff_le, ebind_err] at h
+    cases h
+  · have hn : 0 ≤ idx := by omega
+    have hlt : idx.toNat < st.sim.n := by rw [← hi.count]; omega
+    cases hm : (st.qubits.getD idx.toNat default).measured with
+    | true =>
+      simp only [run_bind', run_get, ebind_ok, run_ite, run_rtErr, run_pure, Bool.or_eq_true, decide_eq_true_eq, h1,
+        if_false, ge_iff_le, hm, if_true] at h
+      cases h
+    | false =>
+      simp only [run_bind', run_get, ebind_ok, run_ite, run_rtErr, run_pure, Bool.or_eq_true, decide_eq_true_eq, h1,
+        if_false, ge_iff_le, hm, Bool.false_eq_true] at h
+      cases h
+      refine ⟨rfl, hn, hlt, ?_⟩
+      have hf : st.sim.measured[idx.toNat]! = false := by rw [← hi.same idx.toNat hlt]; exact hm
+      unfold Sim.ensureActive
+      rw [if_neg (by omega)]
+      simp [hf]
+
 /-! ### non-vacuity -/
 example : firstRefused [false, false] [.gate 0, .measure 0, .gate 1, .reset 0, .gate 0, .measureArr [0, 1], .cx 1 0] 0 = some 6 := by
   decide
